@@ -35,9 +35,16 @@ type vNode struct {
 type vFSModel struct {
 	nodes map[string]*vNode
 	order []string // creation order of the keys (deterministic iteration)
-	// journal of mutating calls, for oracles that need "what happened before what"
+	// journal of calls, for oracles that need "what happened before what"
 	journal []string
+	// process-crash model: the crashAt-th mutating call (counted in ticks) does not happen, the
+	// process dies instead (panic(vCrash)); completed calls persist. -1 = never.
+	ticks   int
+	crashAt int
 }
+
+// vCrash is what a dying process unwinds with.
+type vCrash struct{ why string }
 
 var vFS *vFSModel
 
@@ -51,7 +58,7 @@ var (
 )
 
 func vNewFS(root string) *vFSModel {
-	m := &vFSModel{nodes: map[string]*vNode{}}
+	m := &vFSModel{nodes: map[string]*vNode{}, crashAt: -1}
 	m.put(root, &vNode{dir: true})
 	return m
 }
@@ -74,6 +81,16 @@ func (m *vFSModel) del(p string) {
 }
 
 func (m *vFSModel) note(s string) { m.journal = append(m.journal, s) }
+
+// tick is called by every mutating call that is about to succeed, before it changes anything.
+func (m *vFSModel) tick(s string) {
+	if m.crashAt >= 0 && m.ticks == m.crashAt {
+		m.crashAt = -1
+		panic(vCrash{"instead of: " + s})
+	}
+	m.ticks++
+	m.journal = append(m.journal, s)
+}
 
 // children returns the sorted base names of the entries of directory p.
 func (m *vFSModel) children(p string) []string {
@@ -171,7 +188,7 @@ func vOsMkdirAll(path string, perm os.FileMode) error {
 			return err
 		}
 	}
-	vFS.note("mkdir " + path)
+	vFS.tick("mkdir " + path)
 	vFS.put(path, &vNode{dir: true})
 	return nil
 }
@@ -188,7 +205,8 @@ func vOsRename(oldpath, newpath string) error {
 	if oldpath == newpath {
 		return nil
 	}
-	if dst, ok := vFS.nodes[newpath]; ok {
+	dst, replaces := vFS.nodes[newpath]
+	if replaces {
 		switch {
 		case src.dir && !dst.dir:
 			return vErrNotDir
@@ -197,12 +215,14 @@ func vOsRename(oldpath, newpath string) error {
 		case src.dir && len(vFS.children(newpath)) > 0:
 			return vErrNotEmpty
 		}
-		vFS.del(newpath)
 	}
 	if src.dir && strings.HasPrefix(newpath, oldpath+"/") {
 		return errors.New("verif-fs: rename into itself")
 	}
-	vFS.note("rename " + oldpath + " " + newpath)
+	vFS.tick("rename " + oldpath + " " + newpath)
+	if replaces {
+		vFS.del(newpath)
+	}
 	// move the subtree
 	keys := append([]string(nil), vFS.order...)
 	for _, k := range keys {
@@ -224,34 +244,36 @@ func vOsRemove(name string) error {
 	if n.dir && len(vFS.children(name)) > 0 {
 		return vErrNotEmpty
 	}
-	vFS.note("remove " + name)
+	vFS.tick("remove " + name)
 	vFS.del(name)
 	return nil
 }
 
 // os.RemoveAll
 func vOsRemoveAll(path string) error {
+	// (one step of the crash model; a real crash can leave part of the subtree behind, which for
+	// the users of this model - temporary directories that are removed again at the next start,
+	// snapshot directories handled by the reap plan of C07 - makes no difference)
+	if _, ok := vFS.nodes[path]; ok {
+		vFS.tick("removeall " + path)
+	}
 	keys := append([]string(nil), vFS.order...)
-	hit := false
 	for _, k := range keys {
 		if k == path || strings.HasPrefix(k, path+"/") {
 			vFS.del(k)
-			hit = true
 		}
-	}
-	if hit {
-		vFS.note("removeall " + path)
 	}
 	return nil
 }
 
-func vCreateFile(name string) (*vNode, error) {
+func vCreateFile(name string, what string) (*vNode, error) {
 	if n, ok := vFS.nodes[name]; ok && n.dir {
 		return nil, vErrIsDir
 	}
 	if !vFS.parentIsDir(name) {
 		return nil, vErrNotExist
 	}
+	vFS.tick(what + " " + name)
 	n := &vNode{}
 	vFS.put(name, n)
 	return n, nil
@@ -259,11 +281,10 @@ func vCreateFile(name string) (*vNode, error) {
 
 // os.WriteFile
 func vOsWriteFile(name string, data []byte, perm os.FileMode) error {
-	n, err := vCreateFile(name)
+	n, err := vCreateFile(name, "write")
 	if err != nil {
 		return err
 	}
-	vFS.note("write " + name)
 	n.data = append([]byte(nil), data...)
 	n.crc = vCRCOf(data)
 	return nil
@@ -281,10 +302,9 @@ func vCRCOf(data []byte) uint32 {
 
 // os.Create / (*os.File).Sync / (*os.File).Close, as used for flag files
 func vOsCreate(name string) (*os.File, error) {
-	if _, err := vCreateFile(name); err != nil {
+	if _, err := vCreateFile(name, "create"); err != nil {
 		return nil, err
 	}
-	vFS.note("create " + name)
 	return new(os.File), nil
 }
 func vFileSync(f *os.File) error  { return nil }
@@ -317,6 +337,7 @@ func vSyncDirMaybe(dir string) error {
 	if !ok || !n.dir {
 		return vErrNotExist
 	}
+	vFS.tick("syncdir " + dir) // changes nothing, but is a point at which the process can die
 	return nil
 }
 
@@ -335,11 +356,10 @@ func vReadRaftMeta(path string) (*raft.SnapshotMeta, error) {
 
 // writeMeta
 func vWriteMeta(dir string, meta *raft.SnapshotMeta) error {
-	n, err := vCreateFile(metaPath(dir))
+	n, err := vCreateFile(metaPath(dir), "meta")
 	if err != nil {
 		return err
 	}
-	vFS.note("meta " + dir)
 	c := *meta
 	n.meta = &c
 	n.data = []byte("{meta}")
@@ -361,11 +381,10 @@ func vSidecarRead(path string) (*sidecar.Sidecar, error) {
 
 // sidecar.WriteFile
 func vSidecarWrite(path string, sum uint32) error {
-	n, err := vCreateFile(path)
+	n, err := vCreateFile(path, "sidecar")
 	if err != nil {
 		return err
 	}
-	vFS.note("sidecar " + path)
 	n.sc = sidecar.NewCastagnoli(sum)
 	n.data = []byte("{crc}")
 	return nil
@@ -394,7 +413,7 @@ func vOsOpen(name string) (*os.File, error) {
 // newer release that was downgraded from).
 func vWriteDisabledSidecar(path string) {
 	if verifSymbolic() {
-		n, err := vCreateFile(path + crcSuffix)
+		n, err := vCreateFile(path+crcSuffix, "sidecar")
 		vMust(err)
 		n.sc = &sidecar.Sidecar{Type: sidecar.TypeCastagnoli, Disabled: true}
 		n.data = []byte("{crc}")
